@@ -247,7 +247,9 @@ class StationaryVelocityFieldTransform(DenseVectorFieldTransform):
     def grid_(self, grid: Grid) -> StationaryVelocityFieldTransform:
         r"""Set sampling grid of transformation domain and codomain."""
         super().grid_(grid)
-        self.exp.align_corners = grid.align_corners()
+        exp = shallow_copy(self.exp)  # shared with shallow copies of this transformation
+        exp.align_corners = grid.align_corners()
+        self.exp = exp
         return self
 
     def inverse(
